@@ -30,3 +30,150 @@ def run(chk):
 def replay(chk, path):
     print(open(path).read())
     return 1
+
+
+# ---- oracle-only scenarios: cold synchronous sources and non-trampolining schedulers ------------
+def _expected(op, seqs, count=None):
+    """reference semantics over per-source (elements, terminal) with terminal in 'C','E',None"""
+    out = []
+    if op in ("concat", "start_with"):
+        for xs, t in seqs:
+            out += xs
+            if t == "E":
+                return out, "E"
+            if t is None:
+                return out, None
+        return out, "C"
+    if op == "catch":
+        for i, (xs, t) in enumerate(seqs):
+            out += xs
+            if t == "C":
+                return out, "C"
+            if t is None:
+                return out, None
+        return out, "E"
+    if op == "oern":
+        for xs, t in seqs:
+            out += xs
+            if t is None:
+                return out, None
+        return out, "C"
+    if op == "repeat":
+        xs, t = seqs[0]
+        for _ in range(count):
+            out += xs
+            if t != "C":
+                return out, t
+        return out, "C"
+    if op == "retry":
+        xs, t = seqs[0]
+        for i in range(count):
+            out += xs
+            if t != "E":
+                return out, t
+        return out, ("E" if count > 0 else "C")
+    raise AssertionError(op)
+
+
+def cold_scenarios(chk):
+    import reactivex as rx
+    from reactivex import operators as ops
+    from reactivex.scheduler import ImmediateScheduler
+    from reactivex.subject import Subject
+    import k2
+    n = 120 if chk.tier == "quick" else 1500
+    hist = {}
+    nontrivial = set()
+    for _ in range(n):
+        op = chk.rng.choice(["concat", "start_with", "catch", "oern", "repeat", "retry"])
+        sched_kind = chk.rng.choice(["trampoline", "immediate"])
+        sched = ImmediateScheduler() if sched_kind == "immediate" else None
+        nsrc = 1 if op in ("repeat", "retry") else chk.rng.choice([2, 3])
+        specs = []
+        for i in range(nsrc):
+            kind = "cold" if op in ("repeat", "retry") else chk.rng.choice(["cold", "hot"])
+            xs = [chk.rng.randrange(10) for _ in range(chk.rng.choice([0, 1, 2, 3]))]
+            t = chk.rng.choice(["C", "C", "E"] + ([None] if kind == "hot" else []))
+            specs.append((kind, xs, t))
+        if op == "start_with":
+            specs[0] = ("cold", specs[0][1], "C")
+            specs = specs[:2]
+        count = chk.rng.choice([0, 1, 2, 3]) if op in ("repeat", "retry") else None
+        subjects = []
+        obs_list = []
+        for kind, xs, t in specs:
+            if kind == "cold":
+                parts = [rx.from_iterable(list(xs))]
+                if t == "E":
+                    parts.append(rx.throw(k2.UserError(15)))
+                o = rx.concat(*parts) if len(parts) > 1 else parts[0]
+                obs_list.append(o)
+                subjects.append(None)
+            else:
+                s = Subject()
+                subjects.append(s)
+                obs_list.append(s)
+        if op == "concat":
+            o = rx.concat(*obs_list)
+        elif op == "start_with":
+            o = obs_list[1].pipe(ops.start_with(*specs[0][1]))
+        elif op == "catch":
+            o = rx.catch(*obs_list)
+        elif op == "oern":
+            o = rx.on_error_resume_next(*obs_list)
+        elif op == "repeat":
+            o = obs_list[0].pipe(ops.repeat(count))
+        else:
+            o = obs_list[0].pipe(ops.retry(count))
+        out, term = [], []
+        status, _ = lib.with_timeout(10, lambda: o.subscribe(out.append, lambda e: term.append("E"),
+                                                              lambda: term.append("C"), scheduler=sched))
+        for (kind, xs, t), s in zip(specs, subjects):
+            if s is None:
+                continue
+            for x in xs:
+                s.on_next(x)
+            if t == "C":
+                s.on_completed()
+            elif t == "E":
+                s.on_error(k2.UserError(15))
+        chk.cov["evaluations"] += 1
+        key = f"{op}/{sched_kind}/" + "+".join(k for k, _, _ in specs)
+        hist[key] = hist.get(key, 0) + 1
+        seqs = [(xs, t) for _, xs, t in specs]
+        exp = _expected(op, seqs, count)
+        got = (out, term[0] if term else None)
+        if status != "ok" or got != exp or len(term) > 1:
+            chk.violation(f"C10|cold|{op}|{sched_kind}|{'+'.join(k for k, _, _ in specs)}",
+                          {"operator": op, "scheduler": sched_kind, "count": count,
+                           "sources (kind, elements, terminal)": specs, "got": got, "expected": exp,
+                           "status": status,
+                           "oracle": "concatenation of the consumed sources' elements with the operator's "
+                                     "continuation rule"}, size=sum(len(x) for _, x, _ in specs) + nsrc)
+        elif len(out) >= 2:
+            nontrivial.add(repr((op, sched_kind, specs, count)))
+    return nontrivial, hist
+
+
+_run_machines = run
+
+
+def run(chk):           # machines + correspondence + oracle, then the cold/synchronous scenarios
+    import lib as _lib
+    chk_finish = chk.finish
+    holder = {}
+
+    def deferred_finish(*a, **kw):
+        holder["args"] = (a, kw)
+        return 0
+    chk.finish = deferred_finish
+    _run_machines(chk)
+    chk.finish = chk_finish
+    nt, hist = cold_scenarios(chk)
+    chk.cov["distinct_nontrivial"] += len(nt)
+    chk.cov["input_distribution"]["cold_sync_scenarios"] = hist
+    chk.cov["rule"] += ("; plus oracle-only scenarios: concat/start_with/catch/on_error_resume_next/repeat/retry over "
+                        "mixes of cold synchronous sources (terminating inside subscribe) and hot subjects, on the "
+                        "default trampoline and on ImmediateScheduler")
+    a, kw = holder["args"]
+    return chk.finish(*a, **kw)
